@@ -80,10 +80,18 @@ MODE_SPEC = {'terminals': {'D2': [['12', '0.5'], ['99', '0.25'], ['00', '0.25']]
              'grammar': [['A3D2', '0.5'], ['D2O1', '0.25'], ['A3', '0.25']], 'omen_prob': [], 'prince': [], 'mode': 'dyadic', 'encoding': 'utf-8'}
 
 
-def mode_option_case(args, name='modeopt'):
+def heavy_spec():
+    """a ruleset whose probability mass is almost entirely the Markov structure: a honeyword walk that lands on it produces nothing and is
+    repeated; the N words asked for still have to come (about N / 0.0005 walks)"""
+    om = {'ngram': 2, 'alphabet': ['a', 'b'], 'ip': [[0, 'a']], 'ep': [[0, 'a'], [0, 'b']], 'cp': [[0, 'aa'], [1, 'ab'], [0, 'ba'], [1, 'bb']],
+          'ln': [0, 0, 0], 'keyspace': []}
+    return dict(MODE_SPEC, grammar=[['M', '0.9995'], ['A3D2', '0.00025'], ['D2O1', '0.00025']], omen_prob=[['1', '0.5'], ['2', '0.25']], omen=om)
+
+
+def mode_option_case(args, name='modeopt', spec=None):
     """the other generation modes with every option that can stand next to them: stdout must be exactly N lines, each a word of the
     ruleset (nothing but guesses reaches stdout whatever the option combination)"""
-    d = common.install_ruleset(MODE_SPEC, name)
+    d = common.install_ruleset(spec or MODE_SPEC, name)
     pcfg = common.load_grammar(d)
     lang = set(in_process_stream(pcfg))
     n = int(args[args.index('-n') + 1])
@@ -125,6 +133,8 @@ def mode_option_cases(ctx):
     for args in combos:
         viol += mode_option_case(args)
         runs += 1
+    viol += mode_option_case(['-m', 'honeywords', '-n', '4'], name='modeheavy', spec=heavy_spec())
+    runs += 1
     return viol, runs
 
 
